@@ -19,6 +19,7 @@ type SpecCtx struct {
 	vars map[string]Value
 	pkg  *types.Package
 	rec  *recDef // non-nil while translating the body of a recursive spec function
+	guard string // condition under which the sub-expression being evaluated matters
 }
 
 // NilV is the untyped nil of spec expressions.
@@ -46,10 +47,25 @@ type recDef struct {
 	resSort   string
 	resType   types.Type
 	paramTypes []types.Type
+	paramSyms  []string
+	paramSorts []string
+	body       string
+	decrTerm   string
+	calls      []recCall
+	collectCalls bool
 }
 
 func specFail(format string, a ...any) {
 	panic(unsupported{"spec: " + fmt.Sprintf(format, a...)})
+}
+
+func (c *SpecCtx) under(g string) *SpecCtx {
+	if c.rec == nil || !c.rec.collectCalls {
+		return c
+	}
+	n := *c
+	n.guard = mkAnd(c.guardTerm(), g)
+	return &n
 }
 
 func (c *SpecCtx) with(vars map[string]Value) *SpecCtx {
@@ -160,8 +176,8 @@ func (c *SpecCtx) eval(x *SExpr) Value {
 		return c.binop(x)
 	case "ite":
 		cnd := c.boolTerm(x.Args[0])
-		a := c.eval(x.Args[1])
-		b := c.eval(x.Args[2])
+		a := c.under(cnd).eval(x.Args[1])
+		b := c.under(mkNot(cnd)).eval(x.Args[2])
 		a, b = c.unify(a, b)
 		return c.mergeNoName(cnd, a, b)
 	case "forall", "exists":
@@ -413,11 +429,14 @@ func (c *SpecCtx) binop(x *SExpr) Value {
 	op := x.Name
 	switch op {
 	case "&&":
-		return boolV(mkAnd(c.boolTerm(x.Args[0]), c.boolTerm(x.Args[1])))
+		l := c.boolTerm(x.Args[0])
+		return boolV(mkAnd(l, c.under(l).boolTerm(x.Args[1])))
 	case "||":
-		return boolV(mkOr(c.boolTerm(x.Args[0]), c.boolTerm(x.Args[1])))
+		l := c.boolTerm(x.Args[0])
+		return boolV(mkOr(l, c.under(mkNot(l)).boolTerm(x.Args[1])))
 	case "==>":
-		return boolV(mkImp(c.boolTerm(x.Args[0]), c.boolTerm(x.Args[1])))
+		l := c.boolTerm(x.Args[0])
+		return boolV(mkImp(l, c.under(l).boolTerm(x.Args[1])))
 	case "<==>":
 		return boolV(mkEq(c.boolTerm(x.Args[0]), c.boolTerm(x.Args[1])))
 	}
@@ -615,6 +634,13 @@ func (c *SpecCtx) call(x *SExpr) Value {
 			specFail("fresh() outside a two-state context")
 		}
 		return boolV(mkAnd(sx(">=", r, c.old.next), sx("<", r, c.st.next)))
+	case "samearr":
+		a, ok1 := c.eval(x.Args[0]).(*Slice)
+		b, ok2 := c.eval(x.Args[1]).(*Slice)
+		if !ok1 || !ok2 {
+			specFail("samearr needs two slices")
+		}
+		return boolV(mkAnd(mkEq(a.Arr, b.Arr), mkEq(a.Off, b.Off)))
 	case "allocated":
 		v := c.eval(x.Args[0])
 		r := e.flatten(v)[0]
@@ -691,6 +717,9 @@ func (c *SpecCtx) convert(v Value, t types.Type) Value {
 	switch x := v.(type) {
 	case *Sc:
 		if x.Sort == sInt {
+			if c.e.scalarSort(t) == sBV8 {
+				return &Sc{T: intLitToBV8(x.T), Sort: sBV8, Typ: t}
+			}
 			// spec integers are mathematical: conversions are the identity
 			return &Sc{T: x.T, Sort: c.e.scalarSort(t), Typ: t}
 		}
@@ -784,6 +813,25 @@ func (c *SpecCtx) callPure(it *Item, argx []*SExpr) Value {
 	if e.w.isRecursive(it) {
 		return c.callRec(it, pkg, args, ptypes)
 	}
+	if e.opaque[it.Name] {
+		// opaque in this VC: an uninterpreted function of the arguments (only sound for
+		// functions that do not read the heap; checked)
+		probe := &recDef{heapSort: map[string]string{}}
+		e.symHeaps = append(e.symHeaps, &symHeapCollector{rd: probe})
+		e.quantDepth++
+		pv := map[string]Value{}
+		for i, p := range it.Params {
+			pv[p.Name] = args[i]
+		}
+		pc := &SpecCtx{e: e, st: &State{pc: tTrue, heap: map[string]string{}, next: "next!sym"}, vars: pv, pkg: pkg}
+		pc.eval(it.Body)
+		e.quantDepth--
+		e.symHeaps = e.symHeaps[:len(e.symHeaps)-1]
+		if len(probe.heapNames) > 0 {
+			specFail("%s reads the heap and cannot be made opaque", it.Name)
+		}
+		return e.uninterp(it, pkg, args)
+	}
 	vars := map[string]Value{}
 	for i, p := range it.Params {
 		vars[p.Name] = args[i]
@@ -824,7 +872,11 @@ func (e *Env) uninterp(it *Item, pkg *types.Package, args []Value) Value {
 	return e.fromLeaves(rt, []string{sx(name, ts...)})
 }
 
-// callRec calls a recursive spec function, emitting its define-fun-rec on first use.
+// callRec applies a recursive spec function. The function is an uninterpreted SMT
+// function (its parameters plus the heap arrays its body reads); its defining equation is
+// instantiated ("unfolded once") at every ground application built outside a quantifier,
+// and on request (`unfold f(args)`). Well-foundedness of the definition is a separate
+// obligation (wellfounded:<name>), so the equations are consistent.
 func (c *SpecCtx) callRec(it *Item, pkg *types.Package, args []Value, ptypes []types.Type) Value {
 	e := c.e
 	key := it.Pkg + "." + it.Name
@@ -845,35 +897,76 @@ func (c *SpecCtx) callRec(it *Item, pkg *types.Package, args []Value, ptypes []t
 		ts = append(ts, e.flatten(a)...)
 	}
 	if rd.inProgress {
-		// recursive occurrence inside its own body (or a mutually recursive one): heap params are placeholders
+		// recursive occurrence inside its own body: heap params are placeholders
+		if c.rec != nil && c.rec.collectCalls {
+			c.rec.calls = append(c.rec.calls, recCall{guard: c.guardTerm(), args: append([]string(nil), ts...)})
+		}
 		ts = append(ts, "@HEAP:"+key+"@")
 		return e.fromLeaves(rd.resType, []string{sx(rd.name, ts...)})
 	}
+	nargs := len(ts)
 	for _, hn := range rd.heapNames {
 		ts = append(ts, c.heapTermFor(hn, rd.heapSort[hn]))
 	}
-	return e.fromLeaves(rd.resType, []string{sx(rd.name, ts...)})
+	app := sx(rd.name, ts...)
+	if e.quantDepth == 0 && !e.opaque[it.Name] {
+		e.unfoldRec(rd, ts, nargs, app)
+	}
+	return e.fromLeaves(rd.resType, []string{app})
+}
+
+// unfoldRec assumes the defining equation of rd at the given actual arguments.
+func (e *Env) unfoldRec(rd *recDef, actuals []string, nargs int, app string) {
+	key := "unfold:" + app
+	if e.declared[key] {
+		return
+	}
+	e.declared[key] = true
+	var pairs []string
+	for i, p := range rd.paramSyms {
+		pairs = append(pairs, p, actuals[i])
+	}
+	for i, hn := range rd.heapNames {
+		pairs = append(pairs, q("h$"+hn), actuals[nargs+i])
+	}
+	body := strings.NewReplacer(pairs...).Replace(rd.body)
+	e.sess.Cmd("(assert (= " + app + " " + body + "))")
 }
 
 func (c *SpecCtx) heapTermFor(name, srt string) string {
 	return c.e.heapGet(c.st, name, srt)
 }
 
+type recCall struct {
+	guard string
+	args  []string
+}
+
+func (c *SpecCtx) guardTerm() string {
+	if c.guard == "" {
+		return tTrue
+	}
+	return c.guard
+}
+
 func (e *Env) defineRec(rd *recDef, pkg *types.Package) {
 	it := rd.item
 	rd.inProgress = true
+	rd.collectCalls = true
 	// symbolic state: heap arrays are parameters
 	sym := &State{pc: tTrue, heap: map[string]string{}, next: "next!sym"}
 	symHeap := &symHeapCollector{rd: rd}
 	e.symHeaps = append(e.symHeaps, symHeap)
 	vars := map[string]Value{}
-	var decls []string
+	var sorts []string
 	for i, p := range it.Params {
 		ls := e.leavesOf(rd.paramTypes[i])
 		ts := make([]string, len(ls))
 		for j, l := range ls {
 			ts[j] = q("$" + p.Name + sanitize(l.Path))
-			decls = append(decls, "("+ts[j]+" "+l.Sort+")")
+			rd.paramSyms = append(rd.paramSyms, ts[j])
+			rd.paramSorts = append(rd.paramSorts, l.Sort)
+			sorts = append(sorts, l.Sort)
 		}
 		vars[p.Name] = e.fromLeaves(rd.paramTypes[i], ts)
 	}
@@ -881,12 +974,15 @@ func (e *Env) defineRec(rd *recDef, pkg *types.Package) {
 	ctx := &SpecCtx{e: e, st: sym, vars: vars, pkg: pkg, rec: rd}
 	bodyV := ctx.coerce(ctx.eval(it.Body), rd.resType)
 	body := e.flatten(bodyV)[0]
+	if it.Decr != nil {
+		rd.decrTerm = ctx.intTerm(ctx.eval(it.Decr))
+	}
 	e.quantDepth--
 	e.symHeaps = e.symHeaps[:len(e.symHeaps)-1]
 	sort.Strings(rd.heapNames)
 	var hp []string
 	for _, hn := range rd.heapNames {
-		decls = append(decls, "("+q("h$"+hn)+" "+rd.heapSort[hn]+")")
+		sorts = append(sorts, rd.heapSort[hn])
 		hp = append(hp, q("h$"+hn))
 	}
 	key := it.Pkg + "." + it.Name
@@ -894,9 +990,11 @@ func (e *Env) defineRec(rd *recDef, pkg *types.Package) {
 	if len(hp) == 0 {
 		body = strings.ReplaceAll(body, " )", ")")
 	}
+	rd.body = body
 	rd.inProgress = false
+	rd.collectCalls = false
 	rd.defined = true
-	e.sess.Cmd("(define-fun-rec " + rd.name + " (" + strings.Join(decls, " ") + ") " + rd.resSort + " " + body + ")")
+	e.sess.Cmd("(declare-fun " + rd.name + " (" + strings.Join(sorts, " ") + ") " + rd.resSort + ")")
 }
 
 type symHeapCollector struct{ rd *recDef }
